@@ -34,6 +34,13 @@ CHECKS = {
          "mutations of valid documents, in exact-size heap buffers without terminator under ASan+UBSan, with a guarded hook in memory_input that also sees logical ends inside a larger buffer."),
    note=GENERAL_NOTE + " Partial: the theorem is about the model's window discipline; the binary's memory safety is exploration (ASan/UBSan/hook). memcmp-style reads (string, istring, read_uint) are modelled as guarded by their size check and are visible to ASan only at the true end of the allocation. buffer_input is covered by C07.",
    technique="Lean 4 invariant proof (window discipline of the model) + ASan/UBSan/hook exploration of the real parser on the corpus and on shipped grammars"),
+ 'C08': dict(engine='matcher-model', design_ref='DESIGN.md §6 C08',
+   text=("Proof (Lean 4): the trace of every invocation of the model — any grammar table, input, mode, void / vetoing / throwing / match()-wrapping actions, controls with and without unwind() — is accepted by the "
+         "hook automaton: start is the first hook of the innermost open invocation of that rule, apply/apply0 come at most once after start and before the closing hook, there is exactly one closing hook, and it agrees "
+         "with what the invocation returned (success <=> true, failure <=> false, unwind <=> exception; without unwind() the attempt ends open with the invocation) (C08_balanced, C08_parse); the exact events match() adds "
+         "around the body (C08_protocol); per rule #start = #success + #failure + #unwind (C08_coverage). Proved once through a generic induction principle for trace predicates closed under concatenation."),
+   note=GENERAL_NOTE + " 'raise only from a must-context or raise rule' is checked by the trace oracle, not yet a theorem. The real coverage<>() facility is exercised on corpus grammars with throwing actions and its counters are checked; its code is not modelled.",
+   technique="Lean 4 proof that every model trace is accepted by a hook-protocol stack automaton (+ counting corollary); differential correspondence; same automaton as independent Python oracle; coverage<>() counter check"),
  'C09': dict(engine='matcher-model', design_ref='DESIGN.md §6 C09',
    text=("Proof (Lean 4): every hand-optimised match() body (until, rep, rep_min_max, rep_opt, if_then_else, strict, star_strict, plus, partial, star_partial, rematch, must, if_must/opt_must, "
          "try_catch_*, enable/disable) refines, in the PEG formalism with labelled failures, the documented expansion of its rule (Spec.expandKind): same accepted inputs, same consumed prefix, "
@@ -84,7 +91,7 @@ CHECKS = {
 PENDING = {
 
  'C04': "check under construction", 'C05': "check under construction", 'C06': "check under construction",
- 'C07': "check under construction", 'C08': "check under construction", 'C11': "check under construction", 'C12': "check under construction",
+ 'C07': "check under construction", 'C11': "check under construction", 'C12': "check under construction",
  'C13': "check under construction", 'C14': "check under construction",
  'C20': "check under construction",
 }
@@ -95,7 +102,7 @@ def main():
         'setup_cmd': "cd /verif/lean && lake build",
         'hooks': {'guard': 'TAO_PEGTL_VERIF', 'enable': "checks compile their harness with -DTAO_PEGTL_VERIF -I/repo/include (header-only library)",
                   'baseline_off_cmd': "cmake --build /repo/_build && ctest --test-dir /repo/_build -j8 --timeout 900",
-                  'source_commits': [], 'add_only': True},
+                  'source_commits': ['d3485b7'], 'add_only': True},
         'engines': [
             {'name': 'matcher-model', 'path': 'lean/PegtlVerif/Model/Run.lean + vlib/engine.py + harness/vharness.hpp',
              'serves_properties': [k for k, v in CHECKS.items() if v['engine'] == 'matcher-model'],
